@@ -43,6 +43,13 @@ type C11Round struct {
 	Sleep  bool      `json:"sleep"`   // sleep past the iterator TTL before the write
 	NoWrite bool     `json:"nowrite"` // control round without a write
 	Wild    bool     `json:"wild"`    // the write grants through the typed wildcard of the subject's type
+	// Late: wait half the iterator TTL between the write and the invalidation runs, so that the
+	// invalidation marker (and whatever is cached after it) is younger than the write.
+	Late bool `json:"late,omitempty"`
+	// Window: issue this round's write when the previous write has just left the iterator-TTL
+	// window (its marker and the entries cached after it are still alive): the next invalidation
+	// run is then partial and marks only what this write touches.
+	Window bool `json:"window,omitempty"`
 }
 
 type C11Case struct {
@@ -58,6 +65,19 @@ func genC11(t *rapid.T) C11Case {
 	w := gen.AnyWorld(t, o)
 	c := C11Case{World: w, Query: rapid.Bool().Draw(t, "query"), Engine: []string{"v1", "v2"}[rapid.IntRange(0, 1).Draw(t, "engine")],
 		ShortIt: rapid.IntRange(0, 2).Draw(t, "shortIter") == 0}
+	if rapid.IntRange(0, 5).Draw(t, "windowScenario") == 0 {
+		// two changes to the same request, the second one (through the wildcard where the model allows
+		// it) issued in the window described at C11Round.Window
+		c.Query, c.ShortIt = false, true
+		r := gen.RequestFor(t, w, o)
+		r.Contextual = nil
+		r2 := r
+		if ot, _ := m.SplitObject(r.Object); rapid.IntRange(0, 3).Draw(t, "otherObject") > 0 {
+			r2.Object = ot + ":w" // another object of the type: the listing for the subject must grow
+		}
+		c.Rounds = []C11Round{{Req: r, List: true, Sleep: true, Late: true, Wild: rapid.Bool().Draw(t, "wild0")}, {Req: r2, List: true, Wild: rapid.Bool().Draw(t, "wild1"), Window: true}}
+		return c
+	}
 	n := rapid.IntRange(1, 4).Draw(t, "rounds")
 	for i := 0; i < n; i++ {
 		r := gen.RequestFor(t, w, o)
@@ -107,7 +127,13 @@ func checkC11(env *fw.Env, c C11Case) *fw.Failure {
 	iterTTL := time.Hour
 	if c.ShortIt {
 		iterTTL = 150 * time.Millisecond
+		for _, r := range c.Rounds {
+			if r.Window {
+				iterTTL = 400 * time.Millisecond
+			}
+		}
 	}
+	var lastWrite time.Time
 	cc := newCountingCache()
 	opts := []server.OpenFGAServiceV1Option{
 		server.WithCheckCache(cc),
@@ -166,6 +192,11 @@ func checkC11(env *fw.Env, c C11Case) *fw.Failure {
 			time.Sleep(iterTTL + 60*time.Millisecond)
 			classes = append(classes, "sleep-past-iterator-ttl")
 		}
+		if r.Window && c.ShortIt && !lastWrite.IsZero() {
+			time.Sleep(time.Until(lastWrite.Add(iterTTL + iterTTL/4)))
+			classes = append(classes, "write-just-after-previous-left-ttl-window")
+		}
+		lastWrite = time.Now()
 		before, _ := semkit.RefCheck(cur, r.Req)
 		g := m.Tuple{Object: r.Req.Object, Relation: r.Req.Relation, User: r.Req.User}
 		if r.Wild && m.UserKind(r.Req.User) == "object" {
@@ -215,6 +246,10 @@ func checkC11(env *fw.Env, c C11Case) *fw.Failure {
 			}
 		}
 		after, _ := semkit.RefCheck(cur, r.Req)
+		if r.Late && c.ShortIt {
+			time.Sleep(iterTTL / 2)
+			classes = append(classes, "late-invalidation")
+		}
 		if !awaitInvalidation(s, cc, storeID, modelID, trigger) {
 			env.Rec.Inconclusive()
 			env.Rec.Case(c, false, nil, append(classes, "await-timeout")...)
